@@ -22,7 +22,8 @@ UNIT = Unit(
                   "C16": {"except": ["paths_sorted(", "entry_once(", "no_foreign_positions(", "is Compile"]}},
     rules=["attrs", "fmtmsg", "msg_to_string", "ok_or_else_q", "let_chain", "let_chain_rev", "opt_map", "opt_is_some_and"],
     describe="packages::load_package and separate::read_source_files: a package unit is ONE package — every file loaded into it (the entry file and every other .gom file of "
-             "the directory) declares the unit's own package name; a file declaring another package is an error, never silently merged "
+             "the directory) declares the unit's own package name, and the unit's import set is exactly what those files declare (an import edge — a self-import "
+             "included — is never dropped on the way to the cycle check); a file declaring another package is an error, never silently merged "
              "(its top-level items would otherwise be resolved under that other package's name); the unit's name is never the reserved `Builtin`",
     trusted=["read_gom_sources: fs::read_dir / DirEntry / Path::extension are stubs, `for entry in entries` is rewritten to a loop over Iterator::next, "
              "`files.sort()` to a shim that establishes sortedness (std); termination of the directory walk is not claimed",
@@ -74,7 +75,8 @@ UNIT = Unit(
                      (re.compile(r"\b((?:\w+\.)*)ast\.package\.0\.clone\(\)"), r"string_clone(&\1ast.package.0)", "*")],
            contract="ensures r matches Ok(u) ==> one_package(u),\n        r matches Ok(u) ==> !reserved_package_name(u.name@),\n"
                     "        r matches Ok(u) ==> entry_once(u.files@, if entry_ast is Some { 1int } else { 0int }, entry_path),\n"
-                    "        no_foreign_positions(r),",
+                    "        no_foreign_positions(r),\n"
+                    "        r matches Ok(u) ==> u.imports.names() == declared_imports(u.files@),",
            ghost=[("@entry", "", "let ghost entry_ast0 = entry_ast;"),
                   ("let mut __pv = match read_gom_sources(package_dir)", "line-before", "let ghost n0 = files@.len() as int;")],
            loop_fn=LOOP),
